@@ -274,7 +274,13 @@ Definition update_end_segment (old_size segsize offset dlen : nat) : nat :=
   if offset + dlen <? old_size then (offset + dlen - 1) / segsize else offset / segsize.
 
 (* MDMF in-place path: _do_update_update, _decode_and_decrypt_segments,
-   _build_uploadable_and_finish, Publish.update *)
+   _build_uploadable_and_finish, Publish.update.
+   Power-of-two boundary: update()'s docstring says the file is re-encoded when the segment count
+   crosses a power of two; the code does not do that (_update computes both counts only for a log
+   message).  Publish.update takes the old block-hash leaves, appends None up to the new
+   num_segments, every pushed segment overwrites its leaf and HashTree rebuilds the tree with the
+   new shape, so the data path is the same on both sides of the boundary (the grid cases cross
+   1, 2, 4 and 8 segments). *)
 Definition update_in_place (maxseg : nat) (f : mfile) (data : bytes) (offset : nat) : option mfile :=
   let old_size := mf_len f in
   let segsize := mf_segsize f in
